@@ -194,6 +194,26 @@ def run(ctx: Ctx):
 
     # ---- O4 deletion set provenance ------------------------------------------------
     _o4(ctx, upd, rd, prov, pm, where, rel)
+    # the 'nothing to delete' branch is decided by the best epoch AFTER this update: only if the previous epoch is (still) the best
+    # are its files the best checkpoint. Tested on the best epoch from before the update, two improvements in a row leave the
+    # previous epoch's files - neither last nor best any more - on disk for ever
+    from sa.inline import Inliner as _InlO9
+    inl9 = _InlO9(upd.node, rd)
+    tests9 = []
+    for n_ in own_nodes(upd.node):
+        if isinstance(n_, ast.Compare) and len(n_.ops) == 1 and isinstance(n_.ops[0], (ast.Eq, ast.NotEq)):
+            for a_, b_ in ((n_.left, n_.comparators[0]), (n_.comparators[0], n_.left)):
+                if u(inl9.expand(b_)).replace(" ", "") in ("epoch-1", "-1+epoch"):
+                    k_ = _best_kind(a_, rd, prov)
+                    if k_ is not None:
+                        tests9.append((n_, k_))
+    col.count("previous-epoch-is-best tests", len(tests9))
+    bad9 = [(n_, k_) for n_, k_ in tests9 if k_ != "cur_best"]
+    col.ob("G10", "O9", f"{where}::previous-epoch-kept-iff-it-is-the-current-best", bool(tests9) and not bad9,
+           (f"`{u(bad9[0][0])}` compares the previous epoch with the best epoch from BEFORE this update ({bad9[0][1]}): when the new epoch "
+            f"becomes the best right after the previous one did, the clean-up is skipped and the previous epoch's checkpoint stays in the "
+            f"state directory") if bad9 else "the branch that keeps the previous epoch's files (current best == epoch - 1) was not found",
+           rel, bad9[0][0].lineno if bad9 else upd.line, sample=[(u(n_), k_) for n_, k_ in tests9])
     # ---- O7 refusal to overwrite the best checkpoint -------------------------------
     _o7(ctx, upd, paths, rd, prov, where, rel)
     # ---- O5 atomic publish -----------------------------------------------------------
